@@ -128,6 +128,9 @@ def run_case(acc, cseed, tmpdir):
         return
     wrapped = b"\x19Ethereum Signed Message:\n" + str(len(text)).encode() + text.encode()
     digest = keccak256(wrapped)
+    # the unsigned authorization (what `message -o` leaves): the device can never
+    # authorize it, so the command must fail
+    device_dialogues(acc, rng, out, app_hash, it, bad, do_authorize_signer)
     nsig = rng.choice([0, 1, 2, 3, 5, 10])
     keys = []
     for j in range(nsig):
@@ -204,11 +207,19 @@ def run_case(acc, cseed, tmpdir):
             bad("malformed-authorization-file-loaded:%s" % mut, doc=str(d2)[:200])
         except Exception:
             pass
-    # -------------------------------------------------------- device dialogue --
+    device_dialogues(acc, rng, out, app_hash, it, bad, do_authorize_signer)
+    if len(acc.samples) < 2:
+        acc.sample({"authorization_file": json.load(open(out)), "message": text,
+                    "digest": digest.hex()})
+
+def device_dialogues(acc, rng, out, app_hash, it, bad, do_authorize_signer):
+    """the real authorize command against the simulated UI, for thresholds 1..n and
+    'never', on the authorization file as it is now"""
     from ..admstack import AdminEnv, options
     sigs = json.load(open(out))["signatures"]
     n = len(sigs)
-    for thr in sorted({1, n, rng.randint(1, max(1, n)), None}, key=lambda x: (x is None, x)):
+    for thr in sorted({1, max(n, 1), rng.randint(1, max(1, n)), None},
+                      key=lambda x: (x is None, x)):
         if thr is not None and thr > max(n, 1):
             continue
         gd = GenuineLedger(rng, onboarded=True, mode=MODE_BOOTLOADER, pin=b"abcd1234")
@@ -233,9 +244,6 @@ def run_case(acc, cseed, tmpdir):
                 "succeeded" if ok else "failed",
                 "never authorized" if not should_succeed else "authorized"),
                 threshold=thr, nsig=n, exc=repr(exc)[:200])
-    if len(acc.samples) < 2:
-        acc.sample({"authorization_file": json.load(open(out)), "message": text,
-                    "digest": digest.hex()})
 
 
 def run_shard(spec, acc):
